@@ -148,6 +148,7 @@ def contracts():
     # "a GlomError yields exit status 1 with a message naming the error": printing the error renders its trace (contracts shared with C05)
     from contracts import C05
     cs += common.shared(C05, ['core._format_trace_value', 'core.format_target_spec_trace', 'core.GlomError.__str__'])
+    cs += common.shared(C05, ['core.GlomError._finalize'])
     return cs
 
 
